@@ -175,6 +175,17 @@ func Check(c *Case) (o core.Outcome) {
 			return
 		}
 	}
+	for _, tb := range j.DHT() {
+		if tb.Bits[16] > 0 {
+			// the optimal table reached the 16-bit limit (the length-limiting step of K.2 was at work
+			// or the tree was exactly that deep)
+			o.Label("huffman-maxlen16")
+			break
+		}
+	}
+	if im.W*im.H >= 256*256 {
+		o.Label("size>=256x256")
+	}
 	if worst > 0.25 {
 		o.Label("tightness>25%%")
 	}
@@ -226,4 +237,37 @@ func TestSizes(t *testing.T) {
 		}
 	}
 	core.ExhaustiveDone("every size 1..33 x 1..33 (all partial 8x8 block shapes); qualities rotate over 1..100", 1089)
+}
+
+// TestLarge: large noise-like images (384..512 squared, the upper end of the explored range).
+// Only these give the AC symbol statistics (thousands of blocks, every run/size symbol present
+// with very unequal counts) that push the optimal Huffman tree beyond 16 bits, so that the
+// K.2 length-limiting step decides which codes the stream carries.
+func TestLarge(t *testing.T) {
+	shard, shards := core.EnvInt("VERIF_SHARD", 0), max(1, core.EnvInt("VERIF_SHARDS", 1))
+	seed := core.EnvInt("VERIF_SEED", 1)
+	n := 48
+	if core.Thorough() {
+		n = 640
+	}
+	for k := 0; k < n; k++ {
+		if k%shards != shard {
+			continue
+		}
+		g := rapid.Custom(func(t *rapid.T) *Case {
+			im := &gen.Image{W: rapid.IntRange(384, 512).Draw(t, "w"), H: rapid.IntRange(384, 512).Draw(t, "h"), C: 1, P: 8,
+				Class: rapid.SampledFrom([]string{"noise", "noise", "noise", "nearedge", "sparse"}).Draw(t, "class"), Seed: rapid.Uint64().Draw(t, "seed")}
+			c := &Case{Img: im, Quality: rapid.OneOf(rapid.IntRange(8, 100), rapid.SampledFrom([]int{50, 75, 90, 95})).Draw(t, "quality"), Codec: "baseline"}
+			switch rapid.IntRange(0, 4).Draw(t, "variant") {
+			case 1:
+				im.C = 3
+			case 2:
+				c.Codec = "extended"
+			case 3, 4:
+				c.Codec, im.P = "extended", 12
+			}
+			return c
+		})
+		core.Eval(t, ID, "quota", g.Example(seed*1000+k), Check)
+	}
 }
